@@ -45,24 +45,30 @@ def rule_table_style(prog, rep, tier):
     for p in ed.params():
         if "format" in p:
             fmt_param = p
-    header_exprs = []
-    for n in ast.walk(ed.node):
-        if isinstance(n, ast.Subscript) and isinstance(n.value, ast.Call) and isinstance(n.value.func, ast.Name) and n.value.func.id == "getattr":
-            header_exprs.append(n)
+    all_sections = {t for tbl in (ARG, RET) for st_ in styles for t in getattr_nt(tbl, st_)}
+
+    def header_like(v):
+        return isinstance(v, str) and v.strip() and "{" not in v and len(v) < 40 and (v in all_sections or v.rstrip().endswith(":") or "---" in v)
+
     H = {s: [] for s in styles}
     for s in styles:
-        for e in header_exprs:
-            v = folder.fold(e, {fmt_param: s}, e)
-            if isinstance(v, str):
-                # only emitted when docstring_format != "rest" (guard), but membership is checked regardless
-                guards = expr_guards(e, stop=ed.node)
-                skip = False
-                for t, pol in guards:
-                    tv = folder.fold(t, {fmt_param: s}, t)
-                    if tv is not UNKNOWN and bool(tv) != pol:
-                        skip = True
-                if not skip:
-                    H[s].append((v, e))
+        env = {fmt_param: s}
+        folded = {}
+        for e in ast.walk(ed.node):
+            if isinstance(e, (ast.IfExp, ast.Subscript, ast.Constant, ast.Call, ast.Name, ast.BinOp, ast.JoinedStr)) and not isinstance(getattr(e, "ctx", None), ast.Store):
+                v = folder.fold(e, env, e)
+                if header_like(v):
+                    folded[id(e)] = (v, e)
+        for v, e in folded.values():
+            if id(getattr(e, "_parent", None)) in folded:
+                continue  # keep maximal expressions only
+            skip = False
+            for t, pol in expr_guards(e, stop=ed.node):
+                tv = folder.fold(t, env, t)
+                if tv is not UNKNOWN and bool(tv) != pol:
+                    skip = True
+            if not skip:
+                H[s].append((v.strip("\n"), e))
     # hard-coded headers (string constants that look like section headers) in emit.docstring
     # ReST markers from emit_param_str
     eps = prog.fn("docstring_utils.emit_param_str")
